@@ -1,19 +1,50 @@
-(* C05 proofs, part 4: invariants of whole histories, by induction over the call list. *)
+(* C05 proofs, part 5: invariants of whole histories, by induction over the call list. *)
 From Coq Require Import ZArith List Bool Arith Lia Permutation.
-From VF Require Import Circ.Moments Circ.Placement Circ.Insert Circ.History Circ.MomentsProofs Circ.InsertProofs.
+From VF Require Import Circ.Moments Circ.Placement Circ.Insert Circ.BatchEdit Circ.History
+  Circ.MomentsProofs Circ.InsertProofs Circ.PlacementProofs Circ.CacheProofs Circ.BatchProofs.
 Import ListNotations.
 Open Scope Z_scope.
 
+Lemma replace_with_wf c r : wf (moms c) -> (forall c' z, r = (c', inl z) -> wf (moms c')) -> wf (moms (fst (replace_with c r))).
+Proof.
+  intros Hw Hr. unfold replace_with. destruct r as [c' [z|e]]; simpl; [eapply Hr; reflexivity|exact Hw].
+Qed.
+
+Lemma cached_moms {A} c get put compute (wrap : A -> res) : moms (fst (cached c get put compute wrap)) = moms c.
+Proof. unfold cached. destruct (get (sm c)); reflexivity. Qed.
+
+(* ==== D1: every moment keeps pairwise disjoint qubits ==== *)
 Lemma step_wf c x : wf (moms c) -> call_wf x -> wf (moms (fst (step c x))).
 Proof.
-  intros Hw Hx. destruct x; simpl in *; try exact Hw.
+  intros Hw Hx. destruct x; simpl in Hx; unfold step;
+    try (rewrite cached_moms; exact Hw); try exact Hw.
   - constructor.
-  - destruct (construct its s) as [c' [z|e]] eqn:E; simpl; [|exact Hw].
-    eapply construct_wf; eassumption.
+  - apply replace_with_wf; [exact Hw|]. intros c' z E. eapply construct_wf; eassumption.
+  - destruct (slice_range a b (length (moms c))) as [s e]. simpl. apply Forall_firstn. apply Forall_skipn. exact Hw.
+  - apply replace_with_wf; [exact Hw|]. intros c' z E. eapply add_wf; eassumption.
+  - apply replace_with_wf; [exact Hw|]. intros c' z E. eapply radd_wf; eassumption.
+  - simpl. apply repeat_list_wf. exact Hw.
+  - apply replace_with_wf; [exact Hw|]. intros c' z E. eapply inverse_wf; eassumption.
+  - apply replace_with_wf; [exact Hw|]. intros c' z E. eapply transform_wf; eassumption.
+  - apply replace_with_wf; [exact Hw|]. intros c' z E. eapply zip_wf; eassumption.
+  - apply replace_with_wf; [exact Hw|]. intros c' z E. eapply concat_ragged_wf; eassumption.
   - destruct (insert c index its s) as [c' r] eqn:E. simpl. eapply insert_wf; eassumption.
   - destruct (append c its s) as [c' r] eqn:E. simpl. eapply append_wf; eassumption.
-  - destruct (s_qubits (sm c)); exact Hw.
-  - destruct (s_frozen (sm c)); exact Hw.
+  - destruct (insert_into_range c its s e) as [c' r] eqn:E. simpl. eapply insert_into_range_wf; eassumption.
+  - destruct (insert_at_frontier c its start f) as [c' [f'|e]] eqn:E; simpl; eapply insert_at_frontier_wf; eassumption.
+  - destruct (batch_remove c rs) as [c' r] eqn:E. simpl. unfold batch_remove in E.
+    eapply finish_batch_wf; [exact E|exact Hw|]. intros ms Hm. eapply batch_remove_loop_wf; eassumption.
+  - destruct (batch_replace c rs) as [c' r] eqn:E. simpl. unfold batch_replace in E.
+    eapply finish_batch_wf; [exact E|exact Hw|]. intros ms Hm. eapply batch_replace_loop_wf; eassumption.
+  - destruct (batch_insert_into c rs) as [c' r] eqn:E. simpl. unfold batch_insert_into in E.
+    eapply finish_batch_wf; [exact E|exact Hw|]. intros ms Hm. eapply batch_insert_into_loop_wf; eassumption.
+  - destruct (batch_insert c ins) as [c' r] eqn:E. simpl. eapply batch_insert_wf; eassumption.
+  - destruct (clear_touching c qubits idxs) as [c' r] eqn:E. simpl. eapply clear_touching_wf; eassumption.
+  - destruct (setitem c i m) as [c' r] eqn:E. simpl. eapply setitem_wf; eassumption.
+  - destruct (setslice c a b ms) as [c' r] eqn:E. simpl. eapply setslice_wf; eassumption.
+  - destruct (delitem c i) as [c' r] eqn:E. simpl. eapply delitem_wf; eassumption.
+  - destruct (delslice c a b) as [c' r] eqn:E. simpl. unfold delslice in E. eapply setslice_wf; [exact E|exact Hw|constructor].
+  - simpl. apply repeat_list_wf. exact Hw.
 Qed.
 
 Theorem run_wf h : forall c, wf (moms c) -> Forall call_wf h -> wf (moms (run c h)).
